@@ -349,6 +349,9 @@ func (x *Exec) specIdent(env *SpecEnv, e *EIdent) Value {
 					if v, ok := x.pre.vars[o]; ok {
 						return markPre(v)
 					}
+					if o.Pkg() != nil && o.Parent() == o.Pkg().Scope() {
+						return x.eng.globalVar(x, env.preSt, o)
+					}
 					fail("spec: %s@pre: not a parameter", name)
 				}
 				if env.postMode && x.isParam(o) {
@@ -607,8 +610,24 @@ func (x *Exec) specCall(env *SpecEnv, e *ECall) Value {
 			obj = arg(0)
 		}
 		return sc(x.ghostGet(env.st, e.Fn, obj, SInt))
+	case "oserr":
+		return sc(x.ghostGet(env.st, "oserr", OpaqueV{T: Int(0)}, SBool))
 	case "closed", "readfailed", "locked":
 		return sc(x.ghostGet(env.st, e.Fn, arg(0), SBool))
+	case "pathjoin":
+		return sc(App(SStr, "path-join", asTerm(arg(0)), asTerm(arg(1))))
+	case "sprintf1":
+		// sprintf1(format, intarg): the term fmt.Sprintf builds for one integer argument
+		f, a := asTerm(arg(0)), asTerm(arg(1))
+		name := "sprintf2_" + sortTag(f.Sort) + "_" + sortTag(a.Sort)
+		x.eng.declareFun(name, []string{f.Sort, a.Sort}, SStr)
+		return sc(App(SStr, name, f, a))
+	case "filebytes":
+		return SeqV{App(ArrSort(SInt), "fs-bytes", asTerm(arg(0)))}
+	case "filelen":
+		return sc(App(SInt, "fs-len", asTerm(arg(0))))
+	case "basename":
+		return sc(App(SStr, "path-base", asTerm(arg(0))))
 	case "stream":
 		return SeqV{x.streamOf(arg(0))}
 	case "shiftseq":
